@@ -27,6 +27,7 @@ def build(ctx):
     part_newline(ctx, eng)
     part_leading_blank(ctx, eng)
     part_leading_whitespace(ctx, eng)
+    part_auto_end_to_end(ctx, eng)
     validate(ctx)
 
 
@@ -590,6 +591,87 @@ def part_leading_whitespace(ctx, eng):
     eng.inline_only = None
 
 
+# ======================================================================================= (g) newline_style = Auto, from the input file to the emitted text
+KF_AUTO = 'C08/newline_style/Auto/detects-on-the-newline-normalised-text-of-the-source-map'
+
+
+def part_auto_end_to_end(ctx, eng):
+    """(1) data flow, real MIR of format_file + ParseSess::snippet_provider: the `raw_input_text` handed to apply_newline_style is the
+    `src` text of the rustc SourceFile that lookup_char_pos returns. (2) environment contract, validated natively on every run through
+    the replay driver: SourceFile.src = the file's text with every CR LF replaced by LF. (3) with (1), (2) and the detector's
+    specification proved in part (d), the solver's string theory decides: first terminator of the input is CR LF => Windows."""
+    rp = make_replay(ctx, 'auto')
+    name = eng.find('format_file', self_ty='FormatContext', file='src/formatting.rs')
+    fn = eng.get_fn(name)
+    eng.stubs = []
+    eng.lenient = True
+    eng.unsupported_as_outcome = True
+    eng.inline_only = [re.compile(r'format_file$'), re.compile(r'snippet_provider$')]
+    eng.stub(r'Arc<.*> as (std::clone::)?Clone>::clone$|Arc::<.*>::clone$', lambda e, s_, a, c: a[0], 'Arc::clone = the same pointee')
+    eng.stub(r'SnippetProvider::new$', lambda e, s_, a, c: Tup([a[0], a[1], a[2]], 'SnippetProvider'), 'SnippetProvider::new = structure')
+
+    def entire(e, s_, a, c):
+        sp = deref(e, s_, a[0])
+        if not (isinstance(sp, Tup) and sp.name == 'SnippetProvider'):
+            raise Unsupported('entire_snippet of %r' % (sp,))
+        return sp.items[2]
+    eng.stub(r'SnippetProvider::entire_snippet$', entire, 'SnippetProvider::entire_snippet = big_snippet')
+
+    def apply(e, s_, a, c):
+        s_.trace.append(('apply_newline_style', a[0], a[2]))
+        return UNIT
+    eng.stub(r'apply_newline_style$', apply, 'apply_newline_style(style, buffer, raw_input_text): arguments observed')
+    st = State()
+    args = [eng.fresh_of_type(st, ty, 'a%d' % i) for i, (_, ty) in enumerate(fn.params)]
+    eng.block_budget = 200000
+    try:
+        outs = ctx.check_outcomes(eng.run(name, args, st), 'format_file')
+    finally:
+        eng.block_budget = None
+        eng.unsupported_as_outcome = False
+    napply = 0
+    for pi, o in enumerate(outs):
+        calls = [t for t in o.state.trace if t[0] == 'apply_newline_style']
+        if o.kind != 'ret':
+            continue
+        if len(calls) != 1:
+            ctx.prop('auto-flow/p%d/newline-style-applied-exactly-once' % pi, o.state.pc, z3.BoolVal(True), [], rp, twin=False)
+            continue
+        napply += 1
+        raw = calls[0][2]
+        ok = False
+        if isinstance(raw, Ref):
+            root = o.state.store.get(raw.key)
+            loc_files = [v for (k, v) in o.state.notes.items() if isinstance(k, tuple) and k[0] == 'lazy' and isinstance(v, Opaque) and 'SourceFile' in str(v.tag)]
+            from_lookup = any(t[0] == 'call' and 'lookup_char_pos' in t[1] for t in o.state.trace)
+            ok = (isinstance(root, Opaque) and 'SourceFile' in str(root.tag) and from_lookup and bool(loc_files)
+                  and any(p_[0] == 'field' and len(p_) > 2 and re.search(r'Option<(std::sync::)?Arc<(std::string::)?String>>', str(p_[2])) for p_ in raw.projs))
+        ctx.prop('auto-flow/p%d/raw_input_text-is-SourceFile.src-of-the-file-being-formatted' % pi, o.state.pc, z3.BoolVal(not ok), [], rp, twin=False)
+    if napply == 0:
+        ctx.inconclusive.append('auto-flow: no path of format_file applies the newline style')
+    eng.stubs = []
+    eng.lenient = False
+    eng.inline_only = None
+    # (2) the contract, natively
+    r = ctx.replayer()
+    for text, want in (('a\r\nb\r\r\nc\rd\n', 'a\nb\r\nc\rd\n'), ('\r\n', '\n'), ('x', 'x'), ('\n\r', '\n\r')):
+        got = r.call({'op': 'source_file_src', 'text': text}).get('src')
+        if got != want:
+            raise Inconclusive('environment contract SourceFile.src = replace_all(CR LF -> LF) does not hold on this toolchain: %r -> %r' % (text, got))
+    ctx.assumptions.append('rustc_span::SourceFile.src = the file text with every CR LF replaced by LF (checked natively on 4 texts each run)')
+    # (3) composition in the string theory
+    N = 4 if ctx.tier == 'quick' else 7
+    # first LF of `inp` preceded by CR  <=>  want Windows; detector on src: first LF of src preceded by CR (part d)
+    decl = '(declare-const inp String)(define-fun src () String (str.replace_all inp "\\u{d}\\u{a}" "\\u{a}"))' \
+           '(define-fun i () Int (str.indexof inp "\\u{a}" 0))(define-fun j () Int (str.indexof src "\\u{a}" 0))' \
+           '(define-fun wantwin () Bool (and (>= i 1) (= (str.at inp (- i 1)) "\\u{d}")))' \
+           '(define-fun gotwin () Bool (and (>= j 1) (= (str.at src (- j 1)) "\\u{d}")))'
+    q = z3.parse_smt2_string(decl + '(assert (<= (str.len inp) %d))(assert (>= i 0))(assert (not (= wantwin gotwin)))' % N)
+    cls = z3.parse_smt2_string(decl + '(assert wantwin)')
+    ctx.prop('auto/the-style-of-the-first-terminator-of-the-input-file(strings<=%d)' % N, [], z3.And(list(q)), [], rp,
+             classes=[(KF_AUTO, z3.And(list(cls)))], twin=False)
+
+
 # ----------------------------------------------------------------------------- native
 
 def cli_findings():
@@ -661,6 +743,14 @@ def cli_findings():
         w, u = run(src, 'newline_style=Windows'), run(src, 'newline_style=Unix')
         if w.replace('\r\n', '\n') != u:
             found.setdefault('other', []).append('Windows conversion changed more than the terminators: %r vs %r' % (w[:40], u[:40]))
+    # Auto: the style of the input's first terminator
+    for src, win in (('fn a() {}\r\n\r\nfn b() {}\r\n', True), ('fn a() {}\n\nfn b() {}\r\n', False), ('fn a() {\r\n    let x = 1;\n}\n', True)):
+        out = run(src, 'newline_style=Auto')
+        has_bare = re.search(r'(?<!\r)\n', out) is not None
+        if win and has_bare:
+            found.setdefault('C08/newline_style/Auto/detects-on-the-newline-normalised-text-of-the-source-map', []).append('input whose first terminator is CR LF comes back with bare LF: %r' % out[:40])
+        if not win and '\r\n' in out:
+            found.setdefault('other', []).append('input whose first terminator is LF comes back with CR LF: %r' % out[:40])
     out = run('#[rustfmt::skip]\nfn a() { let s = 1;\r\r\r\nlet t = 2; }\n', 'newline_style=Unix')
     if '\r\n' in out:
         found.setdefault('C08/newline_style/Unix/CR-CR-LF-leaves-a-CRLF', []).append('Unix output of skipped code containing CR CR CR LF still has CRLF: %r' % out)
